@@ -31,6 +31,8 @@ def histories(ctx):
     rng = ctx.rng
     for item in FC.load_corpus('C15'):
         yield item
+    for item in FC.directed(ctx):
+        yield item
     if ctx.tier == 'quick':
         scopes = [(KINDS[:2], [], 9, 3000), (KINDS[:2], [100], 8, 3000)]
     else:
